@@ -80,6 +80,7 @@ class Driver(object):
         for t in rt.threads:
             t.finished = False
         conn._io.data_in = b''
+        del conn.exceptions[:]
         del rec[:]
         sock = br.sock
         del sock.inbox[:]
@@ -88,7 +89,7 @@ class Driver(object):
             sock.peer_push(bytes(c))
             vrt.pump_all()
             carries.append(len(conn._io.data_in))
-        return list(rec), carries, bytes(conn._io.data_in)
+        return list(rec), carries, bytes(conn._io.data_in), len(conn.exceptions)
 
     def make_case(self, frames, tail, cuts, malformed=None):
         """frames: list of (chan, pamqp frame); tail: bytes; cuts: sorted
@@ -100,7 +101,7 @@ class Driver(object):
         cuts = sorted(set(k for k in cuts if 0 < k < len(stream)))
         chunks = [stream[a:b] for a, b in zip([0] + cuts, cuts + [len(stream)])]
         chunks = [c for c in chunks if c]
-        rec, carries, carry = self.run_chunks(chunks)
+        rec, carries, carry, nerr = self.run_chunks(chunks)
         if malformed is None:
             fl = []
             for c, f in frames:
@@ -112,10 +113,10 @@ class Driver(object):
             sent = 'None'
         cin = ('{| ri_registered := [1%%N; 2%%N]; ri_chunks := %s; ri_sent := %s |}'
                % (coq_list([coq_bytes(c) for c in chunks]), sent))
-        cobs = ('{| ro_dispatched := %s; ro_carries := %s; ro_carry := %s |}' % (
+        cobs = ('{| ro_dispatched := %s; ro_carries := %s; ro_carry := %s; ro_errors := %d%%nat |}' % (
             coq_list(['(%s, (%s, %s))' % (coq_N(c), coq_N(t), coq_bytes(p))
                       for c, t, p in rec]),
-            coq_list([coq_nat(n) for n in carries]), coq_bytes(carry)))
+            coq_list([coq_nat(n) for n in carries]), coq_bytes(carry), nerr))
         meta = dict(stream=stream.hex(), cuts=cuts,
                     frames=[(c, f.name) for c, f in frames],
                     tail=tail.hex(), malformed=malformed is not None)
